@@ -1,5 +1,5 @@
 (* Extract_vi.v -- extraction of the vi motion / operator models to OCaml (ExtrOcamlBasic only). *)
 From Coq Require Import List NArith ZArith Extraction ExtrOcamlBasic.
-From NV Require Import Bytes UcDefs MotDefs.
+From NV Require Import Bytes UcDefs MotDefs RegDefs.
 Definition all_types : nat * N * Z := (0%nat, 0%N, 0%Z).
-Extraction "vi_model.ml" all_types buf_of_bytes run_prog init_vst step run ren_pos ren_off positions.
+Extraction "vi_model.ml" all_types buf_of_bytes run_prog init_vst step run ren_pos ren_off positions regs0 reg_put reg_get.
